@@ -61,6 +61,17 @@ func runC16(c *core.Ctx) {
 		_, n := TokenStarts(t)
 		docs = append(docs, doc{t, true, n})
 	}
+	for _, n := range []int{1023, 1024, 1025, 2100, 4096} {
+		x := strings.Repeat("x", n)
+		for _, t := range []string{`{a(s: "` + x + `")}`, `{a(s: """` + x + `""")}`, "{a} #" + x + "\n", "{" + x + "}", `{a(s: ["` + x + `", "` + x + `"])}`} {
+			_, k := TokenStarts(t)
+			docs = append(docs, doc{t, false, k})
+		}
+		for _, t := range []string{`"` + x + `" scalar S`, `"""` + x + `""" type T { "` + x + `" a: Int }`, "scalar S #" + x + "\n", `type T { a(s: String = "` + x + `"): Int }`} {
+			_, k := TokenStarts(t)
+			docs = append(docs, doc{t, true, k})
+		}
+	}
 	nDocs = len(docs)
 	var total int64
 	c.Pool.ParFor(nDocs, func(w, i int) {
